@@ -25,6 +25,7 @@ class Builder:
         self.P, self.a, self.b = P, a, b
         self.n = 0
         self.atoms = {}
+        self.optional_operands = []
 
     def fresh(self, base):
         self.n += 1
@@ -48,6 +49,18 @@ class Builder:
             nm = self.fresh("prec")
             o = P.int(f"{nm}_o", ph=1)
             return ps.TaskPrecedence(name=nm, task_before=a.obj, task_after=b.obj, offset=o), a.e + P.v(f"{nm}_o") <= b.s
+        if kind in ("opt_startat", "opt_endbefore"):
+            # an OPTIONAL constraint used as an operand: its own meaning is `applied => relation`
+            nm = self.fresh(kind)
+            if kind == "opt_startat":
+                c = ps.TaskStartAt(name=nm, task=a.obj, value=P.int(f"{nm}_v", ph=3), optional=True)
+                rel = a.s == P.v(f"{nm}_v")
+            else:
+                c = ps.TaskEndBefore(name=nm, task=b.obj, value=P.int(f"{nm}_v", ph=30), optional=True)
+                rel = b.e <= P.v(f"{nm}_v")
+            self.atoms[f"applied_{nm}"] = c._applied
+            self.optional_operands.append(c)
+            return c, Implies(c._applied, rel)
         if kind == "dontoverlap":
             nm = self.fresh("dontoverlap")
             # documented meaning; the zero-length tie is excluded by the shape (fixed durations > 0)
@@ -91,10 +104,12 @@ def fstr(f):
     return f"{f[0]}(" + ",".join(fstr(x) for x in f[1:]) + ")"
 
 
-def formula_shape(f, optional=False, extra_top=None):
+def formula_shape(f, optional=False, extra_top=None, force_operands=False):
     name = f"formula/{fstr(f)}/{'optional' if optional else 'mandatory'}"
     if extra_top:
         name += f"/next_to_{extra_top}"
+    if force_operands:
+        name += "/operands_forced_applied"
 
     def build(P):
         pb, hv = new_problem(P, True)
@@ -108,6 +123,11 @@ def formula_shape(f, optional=False, extra_top=None):
             # an unrelated mandatory constraint declared next to the formula must stay enforced
             o, m = bld.leaf(extra_top)
             ctx.extra_meaning = m
+        if force_operands and bld.optional_operands:
+            ps.ForceApplyNOptionalConstraints(name="force_ops", list_of_optional_constraints=bld.optional_operands,
+                                              nb_constraints_to_apply=len(bld.optional_operands), kind="exact")
+            ctx.extra_meaning = And([c._applied for c in bld.optional_operands])
+        ctx.named = dict(ctx.named, **{k: v for k, v in bld.atoms.items() if k.startswith("applied_")})
         return ctx
 
     def obligations(ctx):
@@ -243,6 +263,12 @@ def shapes(tier):
         out.append(formula_shape(f, optional=True))
     for f in [("not", "startat"), ("or", "p", "prec"), ("xor", ("or", "p", "startat"), "endbefore"), ("ite", "p", "startat", "endbefore")]:
         out.append(formula_shape(f, extra_top="endbefore"))
+    # optional constraints as operands (with and without a force-apply rule over them)
+    for f in [("not", "opt_startat"), ("xor", "opt_startat", "p"), ("or", "opt_startat", "prec"), ("and", "opt_startat", "opt_endbefore"),
+              ("implies", "p", "opt_endbefore"), ("ite", "q", "opt_startat", "prec"), ("not", ("or", "opt_startat", "opt_endbefore")),
+              ("xor", ("not", "opt_startat"), "endbefore")]:
+        out.append(formula_shape(f))
+        out.append(formula_shape(f, force_operands=True))
     if tier == "thorough":
         for f in d1 + d2:
             out.append(formula_shape(f, optional=True))
